@@ -7,3 +7,5 @@ open GrVerif.Props.C14
 #print axioms header_split
 #print axioms lz4_sound
 #print axioms table_is_reference_decoding
+#print axioms lz4_complete
+#print axioms table_transparent
